@@ -1880,6 +1880,32 @@ func ruleLinkMissing(c *Ctx, rule string) {
 				ok = classifyErr(fi, r.Block(), r.Results[ei], 0) == errNonNil
 			}
 		}
+		if !ok {
+			// the lookup and its refusal in a helper that answers (bucket, error), expanded here: the fact is gone at
+			// the join behind the helper, the path is not — from the edge on which the entity bucket is nil no
+			// successful return is reachable
+			tested, escapes := false, false
+			for _, b := range fn.Blocks {
+				for _, x := range b.Succs {
+					isNilEdge := false
+					for f := range fi.edgeFacts(b, x) {
+						if k, isCall := f.V.(*ssa.Call); f.Kind == "nonnil" && !f.Pol && isCall && invokeNamed(k, "GetEntityBucket") {
+							isNilEdge = true
+						}
+					}
+					if !isNilEdge {
+						continue
+					}
+					tested = true
+					ps := &pathSearch{fn: fn, fi: fi, start: x, startKnow: stepKnow(fi, b, x, knowMap{})}
+					ps.atReturn = func(r *ssa.Return, k knowMap) bool { return !returnIsFailure(fi, r, ei, k) }
+					if ps.run() {
+						escapes = true
+					}
+				}
+			}
+			ok = tested && !escapes
+		}
 		c.Check(ok, rule, name, p.Pos(fn.Pos()), "linking to a missing entity returns an error", "linking to a missing entity is reported as success")
 	}
 	c.Floor(rule, 3)
